@@ -228,6 +228,44 @@ def bridge_cases(rng, thorough):
     return out
 
 
+def conc_cases(rng, thorough):
+    """N goroutines of one node register distinct tunnel ids at the same time through the real backend (connection pool
+    of 1 on Redis so writers queue for the connection); every id is then looked up on a peer node.  'gated': the only
+    pooled connection is held by a BLPOP while the registrations encode one after the other (run with GOMAXPROCS=1)."""
+    def recs(n, tag):
+        out = []
+        for i in range(n):
+            out.append({"tunnel": hexs("%s-%03d-%s" % (tag, i, rng.choice(["", "é", "隧道"]))), "mapping": hexs("pm_%d" % rng.randrange(10 ** 6)),
+                        "secret": hexs("k" * rng.choice([0, 1, 7, 64, 200, 1500])), "node": hexs("node-%d" % rng.randrange(5)),
+                        "src": rng.choice(INTS + [10000000 + i]), "dst": 20000000 + i,
+                        "host": hexs(rng.choice(["h", "host-%d.例え.test" % i, "x" * 300])), "port": 1024 + i})
+        return out
+    storm, gated = [], []
+    for rep_ in range(4 if thorough else 1):
+        for b in ("redis", "hybrid", "memory", "hybridone"):
+            storm.append({"backend": b, "stream": "conc", "way": "storm", "recs": recs(160 if thorough else 48, "st%d" % rep_),
+                          "workers": 32 if thorough else 12, "ttl_ms": 0, "pool": 1})
+        for b in ("redis", "hybrid"):
+            g = recs(3, "g%d" % rep_)
+            g[0]["secret"] = hexs("S" * 400)      # the first value is the longest: a reused buffer shows up as trailing garbage
+            g[1]["secret"] = hexs("")
+            gated.append({"backend": b, "stream": "conc", "way": "gated", "recs": g, "ttl_ms": 0, "pool": 1})
+    return storm, gated
+
+
+def sweep_cases(rng, thorough):
+    """the backend's sweep races the re-registration of a lapsed, unswept tunnel id (memory.Storage.CleanupExpired directly,
+    through hybrid.Storage, and by the StartCleanup ticker)"""
+    out = []
+    for rep_ in range(3 if thorough else 1):
+        for b, w in (("memory", "direct"), ("hybridone", "direct"), ("memory", "ticker")):
+            t = hexs(rng.choice(["tunnel-reopened", "tcp-tunnel-1759260000000000000-8080", rand_str(rng, nonempty=True)]))
+            r1 = rand_rec(rng, t, "node-0", False)
+            r2 = rand_rec(rng, t, "node-1", False)
+            out.append({"backend": b, "stream": "sweep", "way": w, "recs": [r1, r2], "ttl_ms": 0, "fill": 60000})
+    return out
+
+
 def poll_cases(rng, n):
     out = []
     for i in range(n):
@@ -369,7 +407,9 @@ def run(ctx, only_cases=None, only_probes=None):
         cases = only_cases
         probes, invalid = list(only_probes or []), []
         bridges = [p for p in probes if p.get("stream") == "bridge"]
-        probes = [p for p in probes if p.get("stream") != "bridge"]
+        concs = [p for p in probes if p.get("stream") in ("conc", "sweep") and p.get("way") != "gated"]
+        gated = [p for p in probes if p.get("stream") == "conc" and p.get("way") == "gated"]
+        probes = [p for p in probes if p.get("stream") not in ("bridge", "conc", "sweep")]
     else:
         cases = load_corpus() + directed_cases(rng)
         n_virtual = 3000 if thorough else 220
@@ -381,6 +421,8 @@ def run(ctx, only_cases=None, only_probes=None):
         cases += addr_directed(rng) + addr_random(rng, 400 if thorough else 40)
         cases += poll_cases(rng, 24 if thorough else 6)
         bridges = bridge_cases(rng, thorough)
+        concs, gated = conc_cases(rng, thorough)
+        concs += sweep_cases(rng, thorough)
         invalid = invalid_cases(rng, 120 if thorough else 30)
         probes = [{"backend": b, "stream": "probe"} for b in BACKENDS + ["mapshape", "race"]]
     outs = vlib.run_harness(binary, cases, timeout=1500, env={"VERIF_C09_PAR": "48" if thorough else "32"})
@@ -418,16 +460,43 @@ def run(ctx, only_cases=None, only_probes=None):
         ctx.violation(key, "real SessionManager.startSourceBridge/runBridgeLifecycle with the routing table on %s: %s (events: %s)"
                       % (c["backend"], o.get("prop_msg"), "; ".join(o.get("events", []))), {"probe": c, "observed": o})
 
-    # (ii) the model replays every history that the harness observed
+    # (iii-c) concurrency at storage-call granularity: concurrent registrations, sweep racing a re-registration
+    conc_out = vlib.run_harness(binary, concs, timeout=900) if concs else []
+    # the gated schedule once more on a single P (a sync.Pool then hands the second encoder the first one's buffer), with the storms
+    single = gated + [c for c in concs if c.get("way") == "storm" and c["backend"] in ("redis", "hybrid")]
+    conc_out += vlib.run_harness(binary, single, timeout=900, env={"GOMAXPROCS": "1"}) if single else []
+    concs = concs + single
+    nconc_fail = 0
+    for c, o in zip(concs, conc_out):
+        if o["prop_ok"]:
+            continue
+        nconc_fail += 1
+        nfail += 1
+        key = o.get("prop_key") or "concurrency"
+        if key in reported or len(reported) >= 5:
+            continue
+        reported.add(key)
+        small = dict(c)
+        ctx.violation(key, "real RoutingTable under concurrency (%s/%s on %s): %s" % (c["stream"], c["way"], c["backend"], o.get("prop_msg")),
+                      {"probe": small, "observed": {k: v for k, v in o.items() if k not in ("ops", "obs")},
+                       "sequential_history": {"ops": o["ops"][:12], "obs": o["obs"][:12]}})
+
+    # (ii) the model replays every history that the harness observed (for the concurrent streams: the equivalent
+    # sequential history the harness reports - registrations in the order of the instants the code stamped, then lookups)
+    pseudo = [({"backend": c["backend"], "ttl_ms": c["ttl_ms"], "ops": o["ops"], "stream": "valid"}, o)
+              for c, o in zip(concs, conc_out) if all(x["res"] != "err" for x in o["obs"])]
     idx = [i for i, c in enumerate(cases) if modelable(c)]
-    terms = [case_value(cases[i], outs[i]) for i in idx]
+    cases_m = [cases[i] for i in idx] + [pc for pc, _ in pseudo]
+    outs_m = [outs[i] for i in idx] + [po for _, po in pseudo]
+    idx = idx + [None] * len(pseudo)
+    terms = [case_value(cm, om) for cm, om in zip(cases_m, outs_m)]
     mism = []
     n_amb_model = 0
     try:
         res, pred = vlib.model_eval(PROP, terms, predict=True)
-        mism = [idx[k] for k, ok in enumerate(res) if not ok]
+        mism = [k for k, ok in enumerate(res) if not ok]
         n_amb_model = sum(len(vlib.re.findall(r"\[n[01] n1 ", p)) for p in pred if p)   # steps whose answers at t0-eps / t1+eps differ
-        small = [k for k in range(len(terms)) if len(json.dumps(cases[idx[k]])) < 3000]
+        small = [k for k in range(len(terms)) if len(json.dumps(cases_m[k])) < 3000]
         small = small[:: max(1, len(small) // 30)][:30]
         vm_bad = sorted(small[j] for j in vlib.vm_crosscheck(PROP, [terms[k] for k in small]))
         ext_bad = sorted(k for k in small if not res[k])
@@ -436,13 +505,13 @@ def run(ctx, only_cases=None, only_probes=None):
         ctx.coverage["vm_compute_crosschecked_cases"] = len(small)
     except vlib.Broken as b:
         broken = broken or b
-    for i in mism[:3]:
-        if outs[i]["prop_ok"] and not ctx.violations:
-            _, p = vlib.model_eval(PROP, [case_value(cases[i], outs[i])], predict=True)
+    for k in mism[:3]:
+        if outs_m[k]["prop_ok"] and not ctx.violations:
+            _, p = vlib.model_eval(PROP, [terms[k]], predict=True)
             ctx.violation("model-mismatch", "Corr/C09.check: the Routing model and the real RoutingTable (%s) disagree on a history on which "
                           "the Go-side predicate holds; the theorems of Properties/C09.v no longer speak about this code "
-                          "(per-op [matched ambiguous lo hi] = %s)" % (cases[i]["backend"], p[0]),
-                          {"case": cases[i], "observed": outs[i]["obs"]}, found_input=False)
+                          "(per-op [matched ambiguous lo hi] = %s)" % (cases_m[k]["backend"], p[0]),
+                          {"case": cases_m[k], "observed": outs_m[k]["obs"]}, found_input=False)
 
     # reported streams: invalid UTF-8 and the probes (never judged)
     inv_out = vlib.run_harness(binary, invalid, timeout=600) if invalid else []
@@ -483,7 +552,14 @@ def run(ctx, only_cases=None, only_probes=None):
             "ids_above_2^53": 0, "unicode_fields": 0, "empty_fields": 0, "lookup_answers": {}, "poll_histories": 0,
             "node_address_histories": sum(1 for c in cases if c.get("addr")),
             "node_address_refreshes": 0, "node_address_reads": {},
-            "bridge_lifecycle_cases": {}}
+            "bridge_lifecycle_cases": {}, "concurrency_cases": {}}
+    for c, o in zip(concs, conc_out):
+        k = "%s/%s/%s" % (c["stream"], c["way"], c["backend"])
+        d_ = dist["concurrency_cases"].setdefault(k, {"cases": 0, "lookups_judged": 0, "sweep_overlapped": 0, "concurrent_registrations": 0})
+        d_["cases"] += 1
+        d_["lookups_judged"] += o["judged"]
+        d_["sweep_overlapped"] += 1 if o.get("overlap") else 0
+        d_["concurrent_registrations"] += len(c.get("recs", [])) if c["stream"] == "conc" else 0
     for c, o in zip(bridges, bridge_out):
         k = "%s/%s" % (c["backend"], c["way"])
         dist["bridge_lifecycle_cases"][k] = dist["bridge_lifecycle_cases"].get(k, 0) + 1
@@ -526,8 +602,8 @@ def run(ctx, only_cases=None, only_probes=None):
                 if any(r[f] == "" for f in ("mapping", "secret", "node", "host")):
                     dist["empty_fields"] += 1
     ctx.coverage.update({
-        "evaluations": len(cases) + len(invalid) + len(probes) + len(bridges), "distinct_nontrivial": len(nontrivial),
-        "bridge_lifecycle_failures": nbridge_fail,
+        "evaluations": len(cases) + len(invalid) + len(probes) + len(bridges) + len(concs), "distinct_nontrivial": len(nontrivial),
+        "bridge_lifecycle_failures": nbridge_fail, "concurrency_failures": nconc_fail,
         "bridge_lifecycle_samples": [{"backend": c["backend"], "way": c["way"], "events": o["events"]} for c, o in list(zip(bridges, bridge_out))[:6]],
         "rule": "histories of register/lookup/remove/expire (+node-address) operations over 3 tunnel ids and 2-3 RoutingTable "
                 "instances generated from VERIF_SEED by one PRNG (corpus and directed histories first), each run on the real "
@@ -552,6 +628,9 @@ def run(ctx, only_cases=None, only_probes=None):
         "one RoutingTable call is one atomic step (Get and the Delete of an expired record are not interleaved with other nodes' calls)",
         "wall-clock and monotonic readings of time.Now agree within 5 ms over one history (guard band of the timing classification)",
         "storage errors (Redis down) are not modelled: the backends of the run do not fail",
+        "atomic step of the schedule theorems = one storage call: Storage.Set stores the encoding of the value handed to that call, "
+        "memory.Storage.CleanupExpired tests and deletes in one critical section (obligations checked on the real backends by the "
+        "conc / sweep streams, not proved about Go)",
         "backend time on memory.Storage is moved by shifting the stored deadlines (export shim VerifAdvance), on Redis by miniredis.FastForward",
         "the call sites startSourceBridge / runBridgeLifecycle are driven on a real SessionManager with a 7-method fake CloudControlAPI "
         "(one port mapping) and net.Pipe connections; they are checked by the Go-side predicate, not replayed on the Coq model "
